@@ -134,13 +134,23 @@ func (s ErrStates) at(id int) []string {
 func (f *Flat) ErrStatesFrom(A int, E types.Object) ErrStates {
 	info := f.Pkg.TypesInfo
 	st := ErrStates{}
+	// carrier: the variable that currently holds the error. It starts as E; when a spliced-in helper returns the
+	// error (unchanged or wrapped) the caller's variable takes over, and when the error is handed to a spliced-in
+	// helper as an argument the helper's parameter does.
 	type item struct {
-		id    int
-		state string
+		id      int
+		state   string
+		carrier types.Object
 	}
+	type key struct {
+		id      int
+		state   string
+		carrier types.Object
+	}
+	seen := map[key]bool{}
 	var work []item
 	cur := A
-	push := func(id int, s string) {
+	push := func(id int, s string, c types.Object) {
 		ek := edgeKey(cur, id)
 		if st[ek] == nil {
 			st[ek] = map[string]bool{}
@@ -149,23 +159,47 @@ func (f *Flat) ErrStatesFrom(A int, E types.Object) ErrStates {
 		if st[id] == nil {
 			st[id] = map[string]bool{}
 		}
-		if !st[id][s] {
-			st[id][s] = true
-			work = append(work, item{id, s})
+		st[id][s] = true
+		k := key{id, s, c}
+		if !seen[k] {
+			seen[k] = true
+			work = append(work, item{id, s, c})
 		}
 	}
 	for _, e := range f.Nodes[A].Succs {
-		push(e.To, "any")
+		push(e.To, "any", E)
 	}
 	for len(work) > 0 {
 		it := work[len(work)-1]
 		work = work[:len(work)-1]
 		n := f.Nodes[it.id]
 		cur = it.id
+		carrier := it.carrier
 		if n.Ast != nil {
+			// hand-over at the boundary of a spliced-in helper
+			if as, ok := n.Ast.(*ast.AssignStmt); ok && n.Synth != "" && len(as.Lhs) == len(as.Rhs) {
+				moved := false
+				for i, rhs := range as.Rhs {
+					if !usesObj(info, rhs, carrier) {
+						continue
+					}
+					if k, _, _ := keepsClass(info, rhs, carrier); k {
+						if y := objOf(info, as.Lhs[i]); y != nil && isErrorType(y.Type()) {
+							carrier = y
+							moved = true
+						}
+					}
+				}
+				if moved {
+					for _, e := range n.Succs {
+						push(e.To, it.state, carrier)
+					}
+					continue
+				}
+			}
 			kill := false
 			for _, o := range assignedObjs(info, n.Ast) {
-				if o == E {
+				if o == carrier {
 					kill = true
 				}
 			}
@@ -175,12 +209,12 @@ func (f *Flat) ErrStatesFrom(A int, E types.Object) ErrStates {
 		}
 		if n.IsCond {
 			cond := n.Ast.(ast.Expr)
-			if condMentions(info, cond, E) {
-				for _, w := range worldsFor(info, cond, E, it.state) {
-					mt, mf := eval3(info, cond, E, w)
+			if condMentions(info, cond, carrier) {
+				for _, w := range worldsFor(info, cond, carrier, it.state) {
+					mt, mf := eval3(info, cond, carrier, w)
 					for _, e := range n.Succs {
 						if (e.Label == 1 && mt) || (e.Label == 2 && mf) {
-							push(e.To, w)
+							push(e.To, w, carrier)
 						}
 					}
 				}
@@ -188,7 +222,7 @@ func (f *Flat) ErrStatesFrom(A int, E types.Object) ErrStates {
 			}
 		}
 		for _, e := range n.Succs {
-			push(e.To, it.state)
+			push(e.To, it.state, carrier)
 		}
 	}
 	return st
